@@ -34,11 +34,12 @@ type c17Op struct {
 	path    int
 	content int
 	flag    int // spelling of the third argument: 0 literal, 1 variable, 2 comparison, 3 exists(path) where its value is the wanted one
+	force   int // 0: helper / wrapping drawn at random; 1: direct and unwrapped; 2: through a helper function, unwrapped
 }
 
 func TestC17(t *testing.T) {
 	r, e := start(t, "C17",
-		"random histories (<= 12 operations quick, <= 30 thorough) of write(p,s), write(p,s,false), write(p,s,true) (the flag spelled as a literal, a variable, a comparison or exists(p) where that has the wanted value), read(p) (only where the model says p exists) and exists(p) over 2-4 paths drawn from {plain, sub-directory, blank, double blank, leading dash, ;, *, $, ', leading blank, &} and contents from {neutral, empty, edge blanks, blank runs, quotes, $, $(cmd), backquote, backslash, glob, -n, tab, shell metacharacters, #, embedded newline, !, %}; the whole history is one generated program (a third of the operations wrapped in a construct that runs them once: taken branch, else branch, one-pass loop, switch case, branch inside a loop), values literal or held in variables read from stdin, half the time executed inside a function with paths/contents as parameters; a third of the operations are performed by small helper functions (hwrite, hread, ...) called from the history instead of directly. Oracle: model map[path][]line: file bytes = lines joined by newline + newline, read = lines joined, exists = key present; the sandbox afterwards holds exactly the model's files. Non-trivial = append after overwrite after append on one path, or >= 2 paths with a non-plain path or content; distinct by history.",
+		"random histories (<= 12 operations quick, <= 30 thorough) of write(p,s), write(p,s,false), write(p,s,true) (the flag spelled as a literal, a variable, a comparison or exists(p) where that has the wanted value), read(p) (only where the model says p exists) and exists(p) over 2-4 paths drawn from {plain, sub-directory, blank, double blank, leading dash, ;, *, $, ', leading blank, &} and contents from {neutral, empty, edge blanks, blank runs, quotes, $, $(cmd), backquote, backslash, glob, -n, tab, shell metacharacters, #, embedded newline, !, %}; the whole history is one generated program (a third of the operations wrapped in a construct that runs them once: taken branch, else branch, one-pass loop, switch case, branch inside a loop), values literal or held in variables read from stdin, half the time executed inside a function with paths/contents as parameters; a third of the operations are performed by small helper functions (hwrite, hread, ...) called from the history instead of directly; a sixth of the steps are triples 'observe p (read/exists), a helper FUNCTION writes p, observe p again' in one straight-line block. Oracle: model map[path][]line: file bytes = lines joined by newline + newline, read = lines joined, exists = key present; the sandbox afterwards holds exactly the model's files. Non-trivial = append after overwrite after append on one path, or >= 2 paths with a non-plain path or content; distinct by history.",
 		[]string{"reading a missing file is outside the statement (never generated)", "contents ending in a newline are not generated (read strips trailing newlines by definition)", "values containing $, backquote, double quote or backslash are supplied at run time through input(): as source literals they fall under the listed C08 finding"})
 	defer r.Flush()
 	maxOps := e.Pick(12, 30)
@@ -67,6 +68,27 @@ func TestC17(t *testing.T) {
 				// exists() is about paths, not only files: the pre-created directory exists
 				ops = append(ops, c17Op{kind: "exists-dir"})
 				history = append(history, "exists:directory")
+				continue
+			}
+			if gen.Uniform(0, 5).Draw(t, "observe-call-observe") == 0 {
+				// observe p, let a FUNCTION change p, observe p again - all in one straight-line block: what a caller
+				// knows about a file does not survive a call
+				path := c17Paths[p].p
+				obs := "exists"
+				if _, ok := model[path]; ok && gen.Uniform(0, 2).Draw(t, "observe-by-read") != 0 {
+					obs = "read"
+				}
+				ci := gen.Uniform(0, len(c17Contents)-1).Draw(t, "content")
+				chg := []string{"write", "append"}[gen.Uniform(0, 1).Draw(t, "change")]
+				ops = append(ops, c17Op{kind: obs, path: p, force: 1}, c17Op{kind: chg, path: p, content: ci, force: 2})
+				if chg == "write" {
+					model[path] = []string{c17Contents[ci].s}
+				} else {
+					model[path] = append(model[path], c17Contents[ci].s)
+				}
+				obs2 := []string{"read", "exists"}[gen.Uniform(0, 1).Draw(t, "observe-again")]
+				ops = append(ops, c17Op{kind: obs2, path: p, force: 1})
+				history = append(history, "observe-call-observe:"+obs+":"+chg+":"+obs2+":"+c17Paths[p].class)
 				continue
 			}
 			kinds := []string{"write", "write", "append", "append", "overwrite-false", "exists"}
@@ -144,14 +166,17 @@ func TestC17(t *testing.T) {
 		for opIdx, op := range ops {
 			var body strings.Builder // one operation; possibly wrapped into a block that runs it once
 			wrap := 0
-			if gen.Uniform(0, 2).Draw(t, "wrapped") == 0 {
+			if op.force == 0 && gen.Uniform(0, 2).Draw(t, "wrapped") == 0 {
 				wrap = gen.Uniform(1, 5).Draw(t, "wrap-form")
 				r.Class(fmt.Sprintf("wrapped:%d", wrap))
 			}
 			flush := func() { bodyAll.WriteString(wrapInBlock(body.String(), wrap, opIdx)) }
 			// the operation performed directly or by a helper function called from here (a caller must not assume that
 			// the files it knows are untouched by the functions it calls)
-			via := gen.Uniform(0, 2).Draw(t, "via-helper") == 0
+			via := op.force == 2 || (op.force == 0 && gen.Uniform(0, 2).Draw(t, "via-helper") == 0)
+			if op.force == 2 {
+				r.Class("observe-call-observe")
+			}
 			if via {
 				usesHelpers = true
 				r.Class("via-helper-function")
